@@ -84,7 +84,7 @@ ParMonitor ==
 
 (* ---------------- "Res": ResolveComponentQuery / GetComponentConfiguration ---------------- *)
 ResQ == [comp |-> Line.q.comp, rt |-> Line.q.rt, role |-> Line.q.role, entry |-> Line.q.entry]
-ResB == Range(Line.B)
+ResB == IF "L" \in DOMAIN Line THEN FldB(Line.L) ELSE Range(Line.B)     \* "fld" cases: existence follows from the level shapes
 Recorded == IF Line.res.found
               THEN [comp |-> Line.res.comp, rt |-> Line.res.rt, role |-> Line.res.role, entry |-> Line.res.entry]
               ELSE NotFound
@@ -99,7 +99,7 @@ ResStrict ==
 
 ResMonitor ==
   LET rr == Recorded
-      what == <<PathStr(ResQ), Line.B, IF rr = NotFound THEN "notfound" ELSE PathStr(rr)>>
+      what == <<PathStr(ResQ), IF "L" \in DOMAIN Line THEN Line.L ELSE Line.B, IF rr = NotFound THEN "notfound" ELSE PathStr(rr)>>
   IN Soft("ResolvedExists", ResolvedExists(ResQ, ResB, rr), what)
      + Soft("MostSpecific", MostSpecific(ResQ, ResB, rr), what)
      + Soft("PayloadOfResolved", rr # NotFound /\ Key(rr) \in ResB => GotIs(Line.get, rr) /\ GotIs(Line.proc, rr), what)
